@@ -316,7 +316,7 @@ Qed.
 Theorem step_inv st o : Inv st -> Inv (step st o).
 Proof.
   destruct st as [h bb lg]. unfold Inv; simpl. intros I.
-  destruct o as [d e|d e|d e|d e|d e|fs e| |k i c|k d e|k d e|k e]; simpl.
+  destruct o as [d e|d e|d e|d e|d e|fs e| |k i c|k d e|k d e|k e|fs e|k d e]; simpl.
   - destruct (bufferize1 h bb false d e) as [[h' bb'] x] eqn:B. simpl.
     apply (bufferize1_inv _ _ _ _ _ _ _ _ _ I B).
   - destruct (bufferize1 h bb true d e) as [[h' bb'] x] eqn:B. simpl.
@@ -444,6 +444,14 @@ Proof.
     destruct (hd_live x) eqn:Lx; [|exact I].
     destruct (bufferize1 h bb (hd_str x) (hd_want x) e) as [[h' bb'] y] eqn:B. simpl.
     apply (bufferize1_inv _ _ _ _ _ _ _ _ _ I B).
+  - (* CopyTo into a non-fresh destination: every field takes a new region of the buffer *)
+    destruct (copy_fields h bb fs e) as [[h' bb'] xs] eqn:C. simpl.
+    destruct (copy_fields_inv _ _ _ _ _ _ _ _ I C) as (I' & Z & _).
+    rewrite (release_eq _ _ Z). exact I'.
+  - (* buffered Assign into a non-fresh []byte destination *)
+    destruct (bufferize1 h bb false d e) as [[h' bb'] x] eqn:B. simpl.
+    destruct (bufferize1_inv _ _ _ _ _ _ _ _ _ I B) as (I' & Z & _).
+    rewrite (release_eq _ _ Z). exact I'.
 Qed.
 
 Lemma init_inv size : Inv (init size).
@@ -531,7 +539,7 @@ Proof.
   intros Hk T NR. destruct st as [h bb lg]; simpl in *.
   assert (APP : forall xs, nth_error (lg ++ xs) k = Some x)
     by (intros xs; rewrite nth_error_app1; auto; apply nth_error_Some; congruence).
-  destruct o as [d e|d e|d e|d e|d e|fs e| |k' i c|k' d e|k' d e|k' e]; simpl in *;
+  destruct o as [d e|d e|d e|d e|d e|fs e| |k' i c|k' d e|k' d e|k' e|fs e|k' d e]; simpl in *;
     try congruence.
   - destruct (bufferize1 tight h bb false d e) as [[? ?] ?]; simpl; eauto.
   - destruct (bufferize1 tight h bb true d e) as [[? ?] ?]; simpl; eauto.
@@ -554,6 +562,8 @@ Proof.
   - destruct (nth_error lg k') as [y|]; simpl; eauto.
     destruct (hd_live y); simpl; eauto.
     destruct (bufferize1 tight h bb (hd_str y) (hd_want y) e) as [[? ?] ?]; simpl; eauto.
+  - destruct (copy_fields tight h bb fs e) as [[? ?] ?]; simpl; eauto.
+  - destruct (bufferize1 tight h bb false d e) as [[? ?] ?]; simpl; eauto.
 Qed.
 
 
